@@ -417,6 +417,15 @@ def r12_5(ctx):
         ctx.check(not lp.orelse and not any(isinstance(y, (ast.Break, ast.Continue)) for b in lp.body for y in ast.walk(b)), f.fq, "no break/continue", where,
                   "no break/continue skips elements", "loop body can skip the increment or remaining elements (break/continue/else)")
     ctx.floor(n, 2, "yielding loops in Progress.track")
+    # no element may be yielded outside those counted loops
+    counted = set()
+    for lp in loops:
+        if any(isinstance(y, (ast.Yield, ast.YieldFrom)) for y in ast.walk(lp)):
+            for y in ast.walk(lp):
+                counted.add(id(y))
+    for y in walk_local(f.node):
+        if isinstance(y, (ast.Yield, ast.YieldFrom)) and id(y) not in counted:
+            ctx.violation(f.fq, norm(y), f"{f.module.relpath}:{y.lineno}", f"`{norm(y)}` hands elements to the caller outside the loops that count them: on that path (e.g. a disabled display) the task's completed count does not follow the elements yielded")
     tt = ctx.repo.cls("progress:_TrackThread")
     run = tt.method("run")
     ex = tt.method("__exit__")
@@ -439,7 +448,94 @@ def r12_5(ctx):
     ctx.check(ok, tf.fq, short(fw[0]) if fw else "?", tf.where, "track() forwards its sequence argument unchanged to Progress.track", "track() does not forward its `sequence` argument unchanged")
 
 
-RULES = [r12_1, r12_2, r12_3, r12_4, r12_5, r12_6]
+def r12_7(ctx):
+    ctx.rule("R12.7", "the two percentage computations agree: Task.percentage and ProgressBar.percentage_completed use the same expression (completed / total) * 100 with the same clamp, so huge values behave identically in the text column and in the bar")
+    a = ctx.repo.cls("progress:Task").method("percentage")
+    b = ctx.repo.cls("progress_bar:ProgressBar").method("percentage_completed")
+    if a is None or b is None:
+        raise AnchorVanished("Task.percentage / ProgressBar.percentage_completed not found")
+
+    import copy
+
+    class _Num(ast.NodeTransformer):
+        def visit_Constant(self, node):
+            if isinstance(node.value, (int, float)) and not isinstance(node.value, bool):
+                return ast.copy_location(ast.Constant(value=float(node.value)), node)
+            return node
+
+    def factors(e):
+        if isinstance(e, ast.BinOp) and isinstance(e.op, ast.Mult):
+            return factors(e.left) + factors(e.right)
+        return [e]
+
+    def canon(e):
+        # commutative product: the order of the factors does not change an IEEE product of two operands
+        fs = factors(e)
+        if len(fs) == 2:
+            return " * ".join(sorted(f"({norm(f)})" if isinstance(f, ast.BinOp) else norm(f) for f in fs))
+        return norm(e)
+
+    def shape(fn):
+        """Inline the single-assignment locals into the returned expression (names do not matter)."""
+        env = {}
+        out = None
+        for x in walk_local(fn.node):
+            if isinstance(x, ast.Assign) and isinstance(x.targets[0], ast.Name):
+                v = _Num().visit(copy.deepcopy(x.value))
+                v = _Subst(env).visit(v)
+                env[x.targets[0].id] = v
+            elif isinstance(x, ast.Return) and x.value is not None:
+                out = _Subst(env).visit(_Num().visit(copy.deepcopy(x.value)))
+        return out
+
+    class _Subst(ast.NodeTransformer):
+        def __init__(self, env):
+            self.env = env
+
+        def visit_Name(self, node):
+            if node.id in self.env:
+                return copy.deepcopy(self.env[node.id])
+            return node
+
+    def clamp_parts(e):
+        """min(hi, max(lo, x)) / max(lo, min(hi, x)) -> (lo, hi, x)"""
+        def call(e, name):
+            return isinstance(e, ast.Call) and isinstance(e.func, ast.Name) and e.func.id == name and len(e.args) == 2
+        if call(e, "min") or call(e, "max"):
+            outer = e.func.id
+            inner = "max" if outer == "min" else "min"
+            consts = [a for a in e.args if isinstance(a, ast.Constant)]
+            rest = [a for a in e.args if not isinstance(a, ast.Constant)]
+            if len(consts) == 1 and len(rest) == 1 and call(rest[0], inner):
+                c2 = [a for a in rest[0].args if isinstance(a, ast.Constant)]
+                r2 = [a for a in rest[0].args if not isinstance(a, ast.Constant)]
+                if len(c2) == 1 and len(r2) == 1:
+                    hi, lo = (consts[0].value, c2[0].value) if outer == "min" else (c2[0].value, consts[0].value)
+                    return lo, hi, r2[0]
+        return None
+
+    parts = []
+    for fn in (a, b):
+        e = shape(fn)
+        cp = clamp_parts(e) if e is not None else None
+        ctx.check(cp is not None and cp[0] == 0.0 and cp[1] == 100.0, fn.fq, norm(e) if e is not None else "?", fn.where,
+                  "the result is clamped to 0..100", f"{fn.fq} does not clamp its result to 0..100 with min/max (found `{short(e) if e is not None else '?'}`)")
+        if cp is None:
+            continue
+        x = cp[2]
+        fs = factors(x)
+        ratio = [f for f in fs if isinstance(f, ast.BinOp) and isinstance(f.op, ast.Div) and norm(f.left) == "self.completed" and norm(f.right) == "self.total"]
+        scale = [f for f in fs if isinstance(f, ast.Constant) and f.value == 100.0]
+        ctx.check(len(fs) == 2 and len(ratio) == 1 and len(scale) == 1, fn.fq, norm(x), fn.where,
+                  "the ratio completed / total is formed first and then scaled by 100",
+                  f"{fn.fq} computes `{norm(x)}`: the percentage is not (self.completed / self.total) scaled by 100 - e.g. multiplying before dividing overflows or rounds differently for huge counts, so the value is no longer completed/total as a percentage")
+        parts.append(canon(x))
+    if len(parts) == 2:
+        ctx.check(parts[0] == parts[1], a.fq, f"{parts[0]} vs {parts[1]}", a.where, "the text column and the bar compute the same percentage",
+                  f"Task.percentage computes `{parts[0]}` but ProgressBar.percentage_completed computes `{parts[1]}`: the text column and the bar disagree")
+
+
+RULES = [r12_1, r12_2, r12_3, r12_4, r12_5, r12_6, r12_7]
 
 
 def _xcheck(ctx):
